@@ -722,4 +722,82 @@ def refBzSpec : BzSpec refBz refEnc where
         refine ⟨by rw [c2, h2.2, b, hfa], by rw [c1, h2.1, a, hfile, refEnc_eq], ?_⟩
         rw [c, hout, c1, h2.1, a]; simp
 
+/-! ## The size-level loop of the driver -/
+
+/-- forget the file content (the kernel's decisions never look at it) -/
+def OS.forget (os : OS) : OS := { os with file := [] }
+
+theorem accept_forget (os : OS) (k : Nat) :
+    (os.forget.accept k).1 = (os.accept k).1 ∧ (os.forget.accept k).2 = (os.accept k).2.forget := by
+  unfold OS.accept OS.forget
+  simp only []
+  split
+  · exact ⟨rfl, rfl⟩
+  · split
+    · exact ⟨rfl, rfl⟩
+    · split
+      · exact ⟨rfl, rfl⟩
+      · exact ⟨rfl, rfl⟩
+
+theorem respond_forget (os : OS) (n : Nat) :
+    (os.forget.respond n).1 = (os.respond n).1 ∧ (os.forget.respond n).2 = (os.respond n).2.forget := by
+  unfold OS.respond
+  have hn : os.forget.nextResp n = os.nextResp n := rfl
+  rw [hn]
+  cases os.nextResp n with
+  | eintr => exact ⟨rfl, rfl⟩
+  | err e => exact ⟨rfl, rfl⟩
+  | ok k => exact accept_forget { os with sched := os.sched.tail, wcalls := os.wcalls + 1 } (min k n)
+
+theorem write_forget (os : OS) (buf : Bytes) :
+    (os.write buf).1 = (os.respond buf.length).1 ∧ (os.write buf).2.forget = (os.respond buf.length).2.forget := by
+  unfold OS.write
+  rcases h : os.respond buf.length with ⟨r, os'⟩
+  cases r <;> simp [OS.forget]
+
+/-- The size-level loop run by the driver makes the same calls (same requests, same answers)
+    and reaches the same outcome and OS state (up to the file content) as `rwLoop`. -/
+theorem rwLoopN_rwLoop (maxw : Nat) : ∀ (fuel : Nat) (os : OS) (rest : Bytes) (log : List (Nat × WRes)),
+    (rwLoopN maxw fuel os.forget rest.length log).1 = (rwLoop maxw fuel os rest).1 ∧
+    (rwLoopN maxw fuel os.forget rest.length log).2.1 = (rwLoop maxw fuel os rest).2.forget := by
+  intro fuel
+  induction fuel with
+  | zero => intro os rest log; exact ⟨rfl, rfl⟩
+  | succ f ih =>
+    intro os rest log
+    unfold rwLoopN rwLoop
+    have hlen : (rest.take maxw).length = min maxw rest.length := by simp
+    obtain ⟨w1, w2⟩ := write_forget os (rest.take maxw)
+    obtain ⟨r1, r2⟩ := respond_forget os (min maxw rest.length)
+    rw [hlen] at w1 w2
+    simp only []
+    rcases hresp : os.forget.respond (min maxw rest.length) with ⟨rr, os1⟩
+    rcases hw : os.write (rest.take maxw) with ⟨wr, os2⟩
+    rw [hresp] at r1 r2
+    rw [hw] at w1 w2
+    simp only [] at r1 r2 w1 w2
+    have hr : rr = wr := by rw [r1, ← w1]
+    have hos : os1 = os2.forget := by rw [r2, ← w2]
+    subst hr
+    cases rr with
+    | wrote k =>
+      simp only []
+      have hemp : ((rest.drop k).isEmpty = true) ↔ (rest.length - k = 0) := by
+        simp [List.drop_eq_nil_iff]; omega
+      by_cases hk : rest.length - k = 0
+      · rw [if_pos hk, if_pos (hemp.mpr hk)]
+        exact ⟨rfl, hos⟩
+      · rw [if_neg hk, if_neg (fun h => hk (hemp.mp h))]
+        have := ih os2 (rest.drop k) (log ++ [(min maxw rest.length, .wrote k)])
+        rw [List.length_drop, ← hos] at this
+        exact this
+    | eintr =>
+      simp only []
+      have := ih os2 rest (log ++ [(min maxw rest.length, .eintr)])
+      rw [← hos] at this
+      exact this
+    | err e =>
+      simp only []
+      exact ⟨trivial, hos⟩
+
 end Osmium.WriterSM
